@@ -182,6 +182,42 @@ def macro_texts(rng, valid_texts, n):
     return out
 
 
+def resource_forest(rng):
+    """many resource groups, some nested, whose members inherit the group's shift reference, limits or leaves"""
+    n = rng.randint(9, 14)
+    L = ['project p "P" 2025-01-06 +3w {', '  timezone "Etc/UTC"']
+    if rng.random() < 0.4:
+        L.append('  scenario plan "Plan" { scenario s2 "S2" }')
+    L += ['}', 'shift sh "SH" {', '  workinghours mon - fri 9:00 - 17:00', '}',
+          'shift sh2 "SH2" {', '  workinghours mon - thu 8:00 - 16:00', '}']
+    leaves = []
+    for i in range(n):
+        L.append(f'resource g{i} "G{i}" {{')
+        what = rng.choice(["shift", "shift", "shift2", "limits", "leaves", "both"])
+        if what in ("shift", "both"):
+            L.append('  workinghours sh')
+        if what == "shift2":
+            L.append('  workinghours sh2')
+        if what in ("limits", "both"):
+            L.append('  limits { dailymax 6h }')
+        if what == "leaves":
+            L.append('  leaves annual 2025-01-15')
+        for j in range(rng.randint(1, 3)):
+            if rng.random() < 0.35:
+                L += [f'  resource m{i}_{j} "M{i}_{j}" {{', f'    resource n{i}_{j} "N{i}_{j}" {{}}', '  }']
+                leaves.append(f"n{i}_{j}")
+            else:
+                L.append(f'  resource m{i}_{j} "M{i}_{j}" {{}}')
+                leaves.append(f"m{i}_{j}")
+        L.append('}')
+    for j in range(rng.randint(2, 5)):
+        L += [f'task t{j} "T{j}" {{', f'  effort {rng.choice([2, 4, 8, 12])}h', f'  allocate {rng.choice(leaves)}']
+        if j and rng.random() < 0.5:
+            L.append(f'  depends t{j - 1}')
+        L.append('}')
+    return "\n".join(L) + "\n"
+
+
 def run(chk):
     tier = chk.tier
     chk.obligations(["Properties/C11.lean"])
@@ -213,6 +249,10 @@ def run(chk):
             w = json.load(open(wp))
             if w.get("text") and not w.get("ast"):
                 wtexts.append((None, "witness-" + f["id"], w["text"]))
+    # wide and deep resource trees whose members inherit a shift / limits / leaves from their groups (F50 region: the
+    # cost of building must stay proportional to the size, not double with every inheriting resource)
+    for j in range(4 if tier == "quick" else 40):
+        wtexts.append((None, "resource-forest", resource_forest(chk.rng)))
     others = [(None, k) for _, k, _ in wtexts] + others
     texts = [t for _, _, t in wtexts] + texts
     outs = chk.impl.run(["J " + json.dumps({"op": "sched", "text": t, "budget": budget_of(q) if q else 60}) for (q, _), t in zip(others, texts)])
